@@ -30,10 +30,10 @@ inductive VR (cx : Cx) : List DName → Node → Node → List DName → Prop
   | genB {D a b D'} : (∀ Q, QRefl Q → SoundB Q cx D a b D') → VR cx D (.b a) (.b b) D'
   | genRep {D a x b y} : (∀ Q, QRefl Q → SoundRep Q cx D a x b y) → VR cx D (.rep a x) (.rep b y) D
   -- a pure `local` declaration present on one side only (its names become dead)
-  | dropLocal {D kind ns vs rest rest' D'} : AllocPureEs vs →
+  | dropLocal {D kind ns vs rest rest' D'} : AllocPureEs vs → (∀ n ∈ ns.map TName.name, DName.wat n ∉ D) →
       VR cx (refNames ns ++ D) (.ss rest) (.ss rest') D' →
       VR cx D (.ss (.localAssign kind ns vs :: rest)) (.ss rest') D'
-  | addLocal {D kind ns vs rest rest' D'} : AllocPureEs vs →
+  | addLocal {D kind ns vs rest rest' D'} : AllocPureEs vs → (∀ n ∈ ns.map TName.name, DName.wat n ∉ D) →
       VR cx (refNames ns ++ D) (.ss rest) (.ss rest') D' →
       VR cx D (.ss rest) (.ss (.localAssign kind ns vs :: rest')) D'
   -- expressions
@@ -82,7 +82,7 @@ inductive VR (cx : Cx) : List DName → Node → Node → List DName → Prop
   | tNonLv {D x x'} : x.isLv = false → x'.isLv = false → VR cx D (.t x) (.t x') D
   -- function bodies
   | fnBody {D ps ps' v vt vt' r r' g g' a a' b b' D'} : ps.map TName.name = ps'.map TName.name →
-      VR cx D (.b b) (.b b') D' → VR cx D (.f (.mk ps v vt r g a b)) (.f (.mk ps' v vt' r' g' a' b')) D
+      (∀ n ∈ ps'.map TName.name, DName.wat n ∉ D) → VR cx D (.b b) (.b b') D' → VR cx D (.f (.mk ps v vt r g a b)) (.f (.mk ps' v vt' r' g' a' b')) D
   -- statements
   | assign {D ts ts' vs vs'} : VR cx D (.ts ts) (.ts ts') D → VR cx D (.es vs) (.es vs') D →
       VR cx D (.s (.assign ts vs)) (.s (.assign ts' vs')) D
@@ -90,14 +90,14 @@ inductive VR (cx : Cx) : List DName → Node → Node → List DName → Prop
       VR cx D (.s (.cassign op t v)) (.s (.cassign op t' v')) D
   | callStmt {D c c'} : VR cx D (.e c) (.e c') D → VR cx D (.s (.callStmt c)) (.s (.callStmt c')) D
   | doBlock {D b b' D'} : VR cx D (.b b) (.b b') D' → VR cx D (.s (.doBlock b)) (.s (.doBlock b')) D
-  | function {D name m f f'} : (∀ r, name.head? = some r → DName.ref r ∉ D) → VR cx D (.f (addSelf m f)) (.f (addSelf m f')) D →
+  | function {D name m f f'} : (∀ r, name.head? = some r → DName.ref r ∉ D ∧ DName.wat r ∉ D) → VR cx D (.f (addSelf m f)) (.f (addSelf m f')) D →
       VR cx D (.s (.function name m f)) (.s (.function name m f')) D
   | gfor {D ns ns' vs vs' b b' D'} : ns.map TName.name = ns'.map TName.name →
-      VR cx D (.es vs) (.es vs') D →
+      (∀ n ∈ ns'.map TName.name, DName.wat n ∉ D) → VR cx D (.es vs) (.es vs') D →
       VR cx D (.b b) (.b b') D' → VR cx D (.s (.gfor ns vs b)) (.s (.gfor ns' vs' b')) D
-  | nforNone {D n n' a a' b b' body body' D'} : n.name = n'.name → VR cx D (.e a) (.e a') D → VR cx D (.e b) (.e b') D →
+  | nforNone {D n n' a a' b b' body body' D'} : n.name = n'.name → DName.wat n'.name ∉ D → VR cx D (.e a) (.e a') D → VR cx D (.e b) (.e b') D →
       VR cx D (.b body) (.b body') D' → VR cx D (.s (.nfor n a b none body)) (.s (.nfor n' a' b' none body')) D
-  | nforSome {D n n' a a' b b' st st' body body' D'} : n.name = n'.name →
+  | nforSome {D n n' a a' b b' st st' body body' D'} : n.name = n'.name → DName.wat n'.name ∉ D →
       VR cx D (.e a) (.e a') D →
       VR cx D (.e b) (.e b') D → VR cx D (.e st) (.e st') D → VR cx D (.b body) (.b body') D' →
       VR cx D (.s (.nfor n a b (some st) body)) (.s (.nfor n' a' b' (some st') body')) D
@@ -105,9 +105,9 @@ inductive VR (cx : Cx) : List DName → Node → Node → List DName → Prop
   | ifsSome {D brs brs' b b' D'} : VR cx D (.branches brs) (.branches brs') D → VR cx D (.b b) (.b b') D' →
       VR cx D (.s (.ifs brs (some b))) (.s (.ifs brs' (some b'))) D
   | localAssign {D kind ns ns' vs vs'} : ns.map TName.name = ns'.map TName.name →
-      VR cx D (.es vs) (.es vs') D →
+      (∀ n ∈ ns'.map TName.name, DName.wat n ∉ D) → VR cx D (.es vs) (.es vs') D →
       VR cx D (.s (.localAssign kind ns vs)) (.s (.localAssign kind ns' vs')) D
-  | localFn {D kind name f f'} : VR cx D (.f f) (.f f') D →
+  | localFn {D kind name f f'} : DName.wat name ∉ D → VR cx D (.f f) (.f f') D →
       VR cx D (.s (.localFn kind name f)) (.s (.localFn kind name f')) D
   | rep {D b b' c c' D'} : VR cx D (.b b) (.b b') D' → VR cx D' (.e c) (.e c') D' → VR cx D (.rep b c) (.rep b' c') D
   | repeat_ {D b b' c c'} : VR cx D (.rep b c) (.rep b' c') D → VR cx D (.s (.repeat_ b c)) (.s (.repeat_ b' c')) D
